@@ -201,14 +201,15 @@ Proof.
   - destruct (IH l2 (Some (bnum b))) as [lf' E]. exists lf'. rewrite E. reflexivity.
 Qed.
 
-Lemma final_cut c canon start lf X X' Bd' hi out bS :
+Lemma final_cut_ext c canon start lf X X' Bd' hi out bS :
   j_filter c = 1 ->
   (exists Xt, X' = X ++ Xt) ->
   records lf (map eblk (filter irr_ev X')) = Bd' -> StronglySorted blt Bd' ->
   from_num start Bd' = seg_num start hi canon ->
   snd (upto_stop c (undup c lf X)) = true -> out = fst (upto_stop c (undup c lf X)) ->
   In bS canon -> bnum bS = j_stop c -> (j_stop c <> 0 -> start <= j_stop c) ->
-  exists pre e, out = pre ++ [e] /\ eblk e = bS /\ from_num start (map eblk out) = seg_num start (j_stop c) canon.
+  exists pre e, out = pre ++ [e] /\ eblk e = bS /\ from_num start (map eblk out) = seg_num start (j_stop c) canon /\
+    exists Y2, undup c lf X = out ++ Y2.
 Proof.
   intros Hfilter [Xt EX'] EBd HS Hfrom Hs Hout HbS HnS Hle0.
   set (Y := undup c lf X) in *.
@@ -243,6 +244,7 @@ Proof.
     - specialize (HB2 bS H). unfold blt in HB2. unfold enum in Hge. lia. }
   assert (Een : enum e =? j_stop c = true) by (apply N.eqb_eq; unfold enum; rewrite Ee; exact HnS).
   exists Y1, e. rewrite Hout, Hf, Hd1, Hfst, Een. split; [reflexivity|]. split; [exact Ee|].
+  split; [|exists Y2; fold Y; rewrite EY, <- app_assoc; reflexivity].
   (* cut both sides of from_num start Bd' = seg_num start hi canon at S *)
   rewrite map_app. cbn [map].
   assert (Hcut : filter (fun b => bnum b <=? j_stop c) (from_num start Bd') = from_num start (map eblk Y1 ++ [eblk e])).
@@ -255,6 +257,20 @@ Proof.
   rewrite <- Hcut, Hfrom. unfold seg_num. rewrite filter_filter2. apply filter_ext_in. intros b _.
   assert (HShi : j_stop c <= hi) by (rewrite Ee in Hehi; lia).
   destruct (N.leb_spec start (bnum b)), (N.leb_spec (bnum b) hi), (N.leb_spec (bnum b) (j_stop c)); cbn [andb]; try reflexivity; lia.
+Qed.
+
+Lemma final_cut c canon start lf X X' Bd' hi out bS :
+  j_filter c = 1 ->
+  (exists Xt, X' = X ++ Xt) ->
+  records lf (map eblk (filter irr_ev X')) = Bd' -> StronglySorted blt Bd' ->
+  from_num start Bd' = seg_num start hi canon ->
+  snd (upto_stop c (undup c lf X)) = true -> out = fst (upto_stop c (undup c lf X)) ->
+  In bS canon -> bnum bS = j_stop c -> (j_stop c <> 0 -> start <= j_stop c) ->
+  exists pre e, out = pre ++ [e] /\ eblk e = bS /\ from_num start (map eblk out) = seg_num start (j_stop c) canon.
+Proof.
+  intros H1 H2 H3 H4 H5 H6 H7 H8 H9 H10.
+  destruct (final_cut_ext c canon start lf X X' Bd' hi out bS H1 H2 H3 H4 H5 H6 H7 H8 H9 H10) as (pre & e & E1 & E2 & E3 & _).
+  exists pre, e. auto.
 Qed.
 
 Section FinalRun.
